@@ -6,8 +6,8 @@ import cont
 
 MODEL_TARGETS = ["model/Container.vo"]
 COQ_TARGETS = ["props/C05.vo", "proofs/ConstsTie.vo"]
-THEOREMS = [("C05", ["C05_roundtrip_null", "C05_build", "C05_blocks", "C05_any_partition"])]
-PROOF_FILES = ["proofs/ContainerReadProofs.v", "proofs/ContainerProofs.v", "proofs/ContainerFinal.v", "proofs/RoundTripProofs.v", "props/C05.v"]
+THEOREMS = [("C05", ["C05_roundtrip_null", "C05_roundtrip_file", "C05_any_buffered_reader", "C05_build", "C05_blocks", "C05_any_partition"])]
+PROOF_FILES = ["proofs/ContainerReadProofs.v", "proofs/ContainerProofs.v", "proofs/ContainerFinal.v", "proofs/RoundTripProofs.v", "props/C05.v", "proofs/ContainerHeaderProofs.v", "proofs/ContainerChunkProofs.v"]
 TRUSTED_BASE = [
     "Coq 8.16.1 kernel; no axioms (Print Assumptions: closed)",
     "hand-written model/Container.v of writer/mod.rs and reader/mod.rs (block compressor abstract in the writer; the reader model is the null codec), tied by the correspondence runs of C15/C16/C17 (per-call outcomes, sink bytes, item sequences)",
@@ -15,7 +15,7 @@ TRUSTED_BASE = [
     "Rust harness (container writer/reader driver, chunk-controlled BufRead)",
 ]
 ASSUMPTIONS = [
-    "proved: write-then-read = identity for the null codec -- every list of conforming values, every approx_block_size, every interleaving of serialize / push / finish_block, closing by finish_block, into_inner or drop, every sink schedule on which the calls return Ok; any partition into blocks reads back (C05_any_partition); header parsing by cr_open is checked by computation on an example, not proved in general",
+    "proved: write-then-read = identity for the null codec -- every list of conforming values, every approx_block_size, every interleaving of serialize / push / finish_block, closing by finish_block, into_inner or drop, every sink schedule on which the calls return Ok; any partition into blocks reads back (C05_any_partition); the whole file incl. the header (C05_roundtrip_file: cr_open returns the metadata written) and through a BufRead with any chunking (C05_any_buffered_reader)",
     "decided on the crate for all six codecs and their levels: block sizes {0,1,2,17,64,4096,32767..65536,1 MiB}, payloads crossing the 32 KiB encode buffer and the 8 KiB BufReader (8189..8193, 32766, 32768, 40000, 70000 bytes, compressible and incompressible), zero-byte datums, explicit flushes and pushes, failing values; read back from a slice and through chunked readers (1, 2, 7, 4096 bytes per refill)",
 ]
 
